@@ -880,6 +880,8 @@ class _Run(object):
             if isinstance(op, (ast.In, ast.NotIn)) and isinstance(left, ast.Name) and isinstance(right, ast.Name):
                 if (pol if isinstance(op, ast.In) else not pol):
                     v_ = st.get(right.id, ANY)
+                    if v_.truthy is False and v_.types <= CONTAINERS:
+                        return None          # nothing is a member of a container known to be empty
                     nv_ = v_.only(CONTAINERS | frozenset(["obj"]))
                     if not nv_.types:
                         return None
@@ -1387,6 +1389,13 @@ class _Run(object):
             self.an.op(self.fi, node, "JSON backend call %s" % r)
             self.raise_(ANYEXC, node, "the JSON backend may reject the value (%s)" % r.split(".")[-1])
             return STR if r.endswith("jdumps") else JSONV
+        # functions of the math module on numbers: total for finite / infinite / NaN floats and ints (TypeError for anything else)
+        if isinstance(f, ast.Attribute) and isinstance(f.value, ast.Name) and f.value.id == "math" and f.value.id not in st and \
+                f.attr in ("isnan", "isinf", "isfinite", "fabs", "copysign") and isinstance(r, str) and "math" in r:
+            for a_ in argv:
+                if not a_.types <= NUM:
+                    self.raise_("TypeError", node, "math.%s() of %r" % (f.attr, a_))
+            return BOOL if f.attr.startswith("is") else T("float")
         # methods on typed receivers
         if isinstance(f, ast.Attribute):
             base = self.ev(f.value, st, node)
@@ -1540,7 +1549,9 @@ class _Run(object):
             return ANY
         if good <= frozenset(["str", "bytes"]) and good:
             if attr in ("split", "splitlines", "rpartition", "partition"):
-                return AV(["list"] if attr.startswith("split") else ["tuple"], nonempty=True)
+                # "".splitlines() and "".split() are empty lists; split(<separator>) / partition always yield at least one item
+                some = attr in ("rpartition", "partition") or (attr == "split" and bool(argv))
+                return AV(["list"] if attr.startswith("split") else ["tuple"], nonempty=some)
             if attr in ("startswith", "endswith"):
                 # str.startswith(bytes) / bytes.startswith(str) raise TypeError: receiver and argument must be of one kind
                 if argv and "bytes" in good and "str" in argv[0].types and not ("bytes" in argv[0].types):
